@@ -312,4 +312,6 @@ def sut_of(lines):
             return l[len("cfg sut="):].strip()
         if l.startswith("cfg comp="):
             return l[len("cfg comp="):].strip()
+        if l.startswith("cfg cont="):
+            return l[len("cfg cont="):].strip()
     return ""
